@@ -123,4 +123,20 @@ PROPS = {
         'explanation': 'theorems: nodes_rule, nodes_fits (datagram <= 1280 from the RLP size arithmetic), accept_only_if; the responder is checked as a '
                        'decidable relation because buckets are shuffled, the asker by step equality',
     },
+    'C08': {
+        'lean_targets': ['Shisui.Props.C08'],
+        'min_obligations': 4,
+        'runs': [{'name': 'findcontent', 'harness': ['findcontent'], 'driver': ['C08']},
+                 {'name': 'transfer', 'harness': ['transfer'], 'driver': ['C08'], 'timeout': 1200}],
+        'rule': 'responder: real handleFindContent on a started node (table of 0..260 crafted records up to the 300-byte limit), content absent or '
+                'stored with sizes {0,1,2,500,1000,1173..1178,1300,5000}, asker = one of the 32 closest, another table node, or a stranger; reply kind, '
+                'inline bytes and record list must equal the model given the real sort order, and the sort itself is checked against the table '
+                '(non-decreasing log distance, the 32 closest, table records only); end to end: two real protocol instances (real discv5 and uTP over '
+                'an in-memory link), sizes {0,1,1174..1177,4000} (thorough: up to 100000), the four version pairings of {0},{0,1}; bytes received must '
+                'equal bytes stored and no datagram may exceed 1280; non-trivial = table with more than 2 entries / every transfer; distinct = distinct lines',
+        'trusted': ['utp-go (reliable ordered stream), v5wire framing; enode.LogDist; sort.Slice order among ties is taken from the implementation'],
+        'assumptions': ['no packet loss in the quick tier'],
+        'explanation': 'theorems found_small, found_large (with C19 symmetry and C15 framing), not_found, one_packet; step equality of the reply with the '
+                       'model; monitors on the real reply and on real transfers',
+    },
 }
